@@ -48,6 +48,14 @@ func simDebugMain(args []string) int {
 			}
 		}
 	}
+	if vkArg(args, "expand", "") != "" {
+		hist := append([]simEvent(nil), s.hist...)
+		resp := expandState(sc, &expandReq{Hist: hist})
+		for _, sr := range resp.Succ {
+			fmt.Printf("  succ %v hash=%.8s err=%s viol=%d\n", sr.Ev, sr.Hash, firstLine(sr.Err), len(sr.Viol))
+		}
+		return 0
+	}
 	if t := vkArgInt(args, "try", -1); t >= 0 {
 		ev := s.enabled()
 		fmt.Println("trying", ev[t])
